@@ -63,8 +63,7 @@ Print Assumptions C17_lex_dump.
 (* ---- parse_dump: the parser accepts the dumped text and returns the view, up to the
    comment fields.  [dump_ok] (decidable, Idl/DumpParseFacts.v) = lex_ok, the parser-built
    shape with numbers that read back ([pd_ok]), the view is expressible by the token grammar
-   (wf_file of Idl/Print.v: no keyword as a name, ids in i32, values in i64), the text is
-   not empty. *)
+   (wf_file of Idl/Print.v: no keyword as a name, ids in i32, values in i64). *)
 Theorem C17_parse_dump :
   forall (fmt : N -> bytes) (a : file), dump_ok fmt a = true ->
   exists b, parse (f_filename a) (dump fmt a) = Some b /\
@@ -86,14 +85,15 @@ Print Assumptions C17_roundtrip.
 Example C17_domain_inhabited : dump_ok sample_fmt sample_file = true /\ view_ok sample_fmt sample_file = true.
 Proof. exact sample_in_domain. Qed.
 
-(* ---- what the code still gets wrong (known finding C17-empty-file-not-document): a document
-   the parser accepts whose AST is dumped as the empty text, which the parser rejects *)
-Theorem C17_dump_refuted_empty_file :
-  exists (src : bytes) (a : file),
-    parse (B "main.thrift"%string) src = Some a /\
-    forall fmt, parse (B "main.thrift"%string) (dump fmt a) = None.
-Proof. exact dump_refuted_empty_file. Qed.
-Print Assumptions C17_dump_refuted_empty_file.
+(* ---- the former known finding C17-empty-file-not-document is gone: a file with nothing to print
+   is dumped as the empty text, lies in the domain, and is read back as the empty file (parser
+   repair 6a3edb3; under the unrepaired parser the same text was rejected) *)
+Theorem C17_dump_empty_file :
+  forall n fmt,
+  dump fmt (empty_file n) = [] /\ parse n (dump fmt (empty_file n)) = Some (empty_file n) /\
+  dump_ok fmt (empty_file n) = true /\ parse_unrepaired n (dump fmt (empty_file n)) = None.
+Proof. exact dump_empty_file. Qed.
+Print Assumptions C17_dump_empty_file.
 
 (* ---- outside the property: cpp_type is not written; the AST read back differs there and
    only there *)
